@@ -185,6 +185,23 @@ fn c12() {
         match dec_all(&b) { Ok((v, used)) => if !same_seq(&v, &[denote(s), Amf0Value::Null]) || used != b.len() { fail(format!("[c12] decoder maps the conformant encoding of {:?} to {}", s, show(&v))) }, Err(e) => fail(format!("[c12] decoder rejects the conformant encoding of {:?}: {}", s, e)) }
     }
     for bv in 2..=255u8 { match dec_all(&[1, bv]) { Ok((v, _)) => if !same_seq(&v, &[Amf0Value::Boolean(true)]) { fail(format!("[c12] boolean byte {} decodes to {}", bv, show(&v))) }, Err(e) => fail(format!("[c12] boolean byte {} rejected: {}", bv, e)) } }
+    // unsupported markers are errors WHEREVER the value sits: behind conformant top-level values, as a strict-array element, as a
+    // property value (AMF0 markers 4 MovieClip, 7 Reference, 11 Date, 12 LongString, 13 Unsupported, 14 RecordSet, 15 XML, 16 TypedObject,
+    // 17 AVM+ and every byte above are not supported by this decoder; 9 outside an object is not a value marker)
+    {
+        let prefixes: Vec<Vec<u8>> = vec![vec![], vec![5], vec![2, 0, 1, b'a'], { let mut v = vec![0u8]; v.extend_from_slice(&1.5f64.to_be_bytes()); v }, vec![1, 1, 5], vec![3, 0, 1, b'k', 5, 0, 0, 9], vec![0x0A, 0, 0, 0, 1, 5], vec![6, 5, 6]];
+        for mk in 0..=255u8 { if [0u8, 1, 2, 3, 5, 6, 8, 9, 10].contains(&mk) { continue; }
+            for pre in &prefixes {
+                let tail = [mk, 0, 0, 0, 0, 0, 0, 0, 0, 0];
+                let mut top = pre.clone(); top.extend_from_slice(&tail);
+                let mut elem = pre.clone(); elem.extend_from_slice(&[0x0A, 0, 0, 0, 1]); elem.extend_from_slice(&tail);
+                let mut pval = pre.clone(); pval.extend_from_slice(&[3, 0, 1, b'k']); pval.extend_from_slice(&tail); pval.extend_from_slice(&[0, 0, 9]);
+                for (place, b) in [("a top-level value", top), ("a strict-array element", elem), ("a property value", pval)] {
+                    if let Ok((v, _)) = dec_all(&b) { fail(format!("[c12] marker {} as {} behind {} conformant byte(s) {:02x?} was not reported as an error: decoded {}", mk, place, pre.len(), pre, show(&v))); }
+                }
+            }
+        }
+    }
     // unsupported markers are errors
     for mk in 0..=255u8 { if [0u8, 1, 2, 3, 5, 6, 8, 9, 10].contains(&mk) { continue; } if let Ok((v, _)) = dec_all(&[mk, 0, 0, 0, 0, 0, 0, 0, 0, 0]) { fail(format!("[c12] marker {} accepted: {}", mk, show(&v))); } }
     // truncation: every strict prefix of a valid encoding is rejected or decodes to a prefix of what was encoded
